@@ -131,11 +131,11 @@ impl Socket {
   ///
   /// The `frames` Vec should have MsgFlags::MORE set correctly on all but the last Msg.
   pub async fn send_multipart(&self, frames: Vec<Msg>) -> Result<(), ZmqError> {
-    if frames.len() > FrameBatch::MAX_FRAMES {
+    if frames.len() > FrameBatch::MAX_USER_FRAMES {
       return Err(ZmqError::InvalidMessage(format!(
         "multipart message has {} frames, at most {} are supported",
         frames.len(),
-        FrameBatch::MAX_FRAMES
+        FrameBatch::MAX_USER_FRAMES
       )));
     }
     self.inner.send_multipart(FrameBatch::from(frames)).await
